@@ -77,8 +77,11 @@ def run(ctx):
               for f in ctx.prop('prop:dep5-after-recovery', list(enumerate(docs[:ctx.n(600, 6000)])), p_doc_after_recovery)]
     years = list(G.all_strings(['1', '9', '-', ',', ' ', 'a', '(', '٢', '²'], ctx.n(4, 5)))
     ctx.exhaustive.append('all %d strings of length <= %d over 1 9 - , space a ( and two non-ASCII digits through is_year_range' % (len(years), ctx.n(4, 5)))
+    years += ['1' * n for n in (8, 16, 31, 32, 33, 63, 64, 65, 127, 128, 129, 255, 256, 257, 1000)] + [','.join(str(y) for y in range(1900, 1900 + n)) for n in (5, 6, 7, 8, 13, 26, 52, 120)]
+    years += ['1' * n + 'a' for n in (31, 32, 33, 64, 200)] + ['-' * n for n in (31, 32, 33, 64)]
     fails += ctx.prop('prop:year-range', years, p_year)
     texts = [t for _, t in docs]
+    fails += ctx.prop('prop:observing-changes-nothing', texts[:ctx.n(700, 8000)], _copy.p_observe)
     mutated = [G.corrupt_doc(rng, t) for t in texts[:ctx.n(2500, 30000)]]
     bad = ctx.compare('corr:copyright', [('copyright_from_text', [t]) for t in texts + mutated], _copy.impl)
     bad += ctx.compare('corr:is_year_range', [('is_year_range', [t]) for t in years], _copy.impl)
